@@ -294,8 +294,8 @@ def solve_check(kind, case, rec):
 
 
 FAMILIES = [
-    Family("newton", CLASSES, check, strategy=strategy, n={"quick": 24, "thorough": 300}, chunk=8, weight=3),
-    Family("solve", ["spd", "unsymmetric"], solve_check, strategy=solve_strategy, n={"quick": 30, "thorough": 500}, chunk=50),
+    Family("newton", CLASSES, check, strategy=strategy, n={"quick": 24, "thorough": 1200}, chunk=8, weight=3),
+    Family("solve", ["spd", "unsymmetric"], solve_check, strategy=solve_strategy, n={"quick": 30, "thorough": 3000}, chunk=50),
 ]
 
 LEVEL_TEXT = (
